@@ -223,11 +223,16 @@ def explore(run_once, max_preemptions: int, limit: int):
     run_once(choice_seq) -> RunResult.  Yields every RunResult.  A schedule is identified by
     the full sequence of chosen thread ids; children differ from their parent at one decision
     point beyond the parent's forced prefix."""
+    import heapq
+
+    # schedules with FEWER preemptions first (iterative context bounding: most defects need one well-placed switch);
+    # among equals the most recently found alternative first, as in a depth-first search
     seen = set()
-    work = [[]]
+    work = [(0, 0, [])]
+    tick = 0
     count = 0
     while work and count < limit:
-        prefix = work.pop()
+        _cost, _tick, prefix = heapq.heappop(work)
         r = run_once(prefix)
         key = tuple(d.chosen for d in r.decisions)
         if key in seen:
@@ -249,4 +254,5 @@ def explore(run_once, max_preemptions: int, limit: int):
                     continue
                 cost = 1 if (d.current is not None and any(t == d.current for t, _ in d.enabled) and tid != d.current) else 0
                 if pre[k] + cost <= max_preemptions:
-                    work.append([x.chosen for x in r.decisions[:k]] + [tid])
+                    tick -= 1
+                    heapq.heappush(work, (pre[k] + cost, tick, [x.chosen for x in r.decisions[:k]] + [tid]))
